@@ -36,7 +36,7 @@ func usedOnlyByAssume(in ssa.Instruction) bool {
 }
 
 // atCalls: obligations "atcall CALLEE requires ..." of frame fr's contract at this call.
-func (e *Exec) atCalls(fr *Frame, st *State, cc *ssa.CallCommon, pos token.Pos) {
+func (e *Exec) atCalls(fr *Frame, cfr *Frame, st *State, cc *ssa.CallCommon, pos token.Pos) {
 	name := ""
 	if cc.IsInvoke() {
 		name = cc.Method.Name()
@@ -53,6 +53,17 @@ func (e *Exec) atCalls(fr *Frame, st *State, cc *ssa.CallCommon, pos token.Pos) 
 			continue
 		}
 		env := e.specEnvAt(fr, st)
+		// arg0.. = the actual arguments of this call (receiver excluded)
+		for i, a := range cc.Args {
+			if i >= 4 {
+				break
+			}
+			av := e.val(cfr, st, a)
+			if av.Tuple == nil && av.Fn == nil && av.T != "" {
+				av.Typ = a.Type()
+				env.vars[fmt.Sprintf("arg%d", i)] = av
+			}
+		}
 		f := e.specBool(env, ac.Clause)
 		key := "atcall." + ac.Callee + "." + ac.Clause.Label
 		e.sc.oblig(st.reach, f, fmt.Sprintf("%s#%s", e.unit, key)+e.siteSuffix(key), "pre", fmt.Sprintf("required at every call of %s: %s", ac.Callee, ac.Clause.Text), e.pos(pos))
@@ -67,11 +78,11 @@ func (e *Exec) call(fr *Frame, st *State, cc *ssa.CallCommon, instr ssa.Instruct
 			afr = afr.outer
 		}
 		if afr != fr && afr.fc != nil && len(afr.fc.AtCalls) > 0 {
-			e.atCalls(afr, st, cc, pos)
+			e.atCalls(afr, fr, st, cc, pos)
 		}
 	}
 	if fr.fc != nil && len(fr.fc.AtCalls) > 0 {
-		e.atCalls(fr, st, cc, pos)
+		e.atCalls(fr, fr, st, cc, pos)
 	}
 	var args []Val
 	if cc.IsInvoke() {
